@@ -91,7 +91,7 @@ extern "C" int h_c17() {
   } else if (kind == 6) {     // v dimensions (each of extent 1)
     std::vector<size_t> dims(v, 1); Param p("MANYDIMS", "m"); p.set(std::vector<float>() = {__vp_sym_f32("fv")}, dims); c.parameter("LIMITS", p);
   } else if (kind == 7 || kind == 8) {   // v points / v channels, one frame
-    set_rate(c, "POINT", 100.f); set_rate(c, "ANALOG", 100.f);
+    set_rate(c, "POINT", 100.f); if (kind == 8) set_rate(c, "ANALOG", 100.f);
     if (kind == 7) P = v; else C = v;
     for (int i = 0; i < P; ++i) { std::string n("p"); n += char('a' + i / 26 % 26); n += char('a' + i % 26); n += char('0' + i / 676); pn.push_back(n); c.point(n); }
     for (int i = 0; i < C; ++i) { std::string n("c"); n += char('a' + i / 26 % 26); n += char('a' + i % 26); n += char('0' + i / 676); an.push_back(n); c.analog(n); }
@@ -101,7 +101,11 @@ extern "C" int h_c17() {
     if (C) { SubFrame sf; for (int i = 0; i < C; ++i) { Channel ch; ch.name(an[i]); float a = __vp_sym_f32("a"); ch.data(a); sf.channel(ch); in.push_back(a); } ana.subframe(sf); }
     fr.add(pts, ana); c.frame(fr);
   } else if (kind == 9) {     // many parameters: v groups of one 200-byte description each (parameter section of many blocks)
-    for (int i = 0; i < v; ++i) { std::string g("G"); g += char('A' + i / 26 % 26); g += char('A' + i % 26); g += char('0' + i / 676 % 10); Param p("P", std::string(250, 'x')); p.set(std::vector<int>() = {i}); c.parameter(g, p); }
+    for (int i = 0; i < v; ++i) {       // 5 parameters per group: the number of groups stays below its own limit (127)
+      int gi = i / 5; std::string g("G"); g += char('A' + gi / 26 % 26); g += char('A' + gi % 26);
+      std::string pn("P"); pn += char('0' + i % 5);
+      Param p(pn, std::string(250, 'x')); p.set(std::vector<int>() = {i}); c.parameter(g, p);
+    }
   }
   dump_all(c, "pre", false);
   int wrote = 0, loaded = 0;
